@@ -244,6 +244,9 @@ func runControls(dir string) *controlResult {
 		{"SEARCH-HIT", map[string]bool{"BadSearchNoHitTest": true, "GoodSearchHitTest": false}},
 		{"ADVANCE-LOST", map[string]bool{"BadAdvanceLost": true, "GoodAdvanceKept": false}},
 		{"VALUE-RECORD-COMPLETE", map[string]bool{"BadValueSkipped": true, "GoodEveryValue": false}},
+		{"CHUNK-START-INCLUSIVE", map[string]bool{"(*chunked).BadChunkStartStrict": true, "(*chunked).GoodChunkStartInclusive": false}},
+		{"MEMO-PRIMED", map[string]bool{"BadMemoZeroSentinel": true, "GoodMemoFirstRound": false, "GoodMemoValueTest": false}},
+		{"NARROW-GUARD", map[string]bool{"(*Scanner).seekTo": true, "(*Scanner).seekChecked": false}},
 	} {
 		rule := rules[rc.rule]
 		if rule == nil {
